@@ -21,7 +21,7 @@ Unset Printing Notations.
 Set Printing Notations.
 """
 
-_tok = re.compile(r'\s*(?:(-?\d+)(?:%[A-Za-z]+)?|("(?:[^"]|"")*")|([A-Za-z_][A-Za-z0-9_\'.]*)|(\[|\]|\(|\)|;|,))')
+_tok = re.compile(r'\s*(?:(-?\d+)(?:%[A-Za-z]+)?|("(?:[^"]|"")*")(?:%[A-Za-z]+)?|([A-Za-z_][A-Za-z0-9_\'.]*)|(\[|\]|\(|\)|;|,))')
 
 
 class _P:
